@@ -69,8 +69,74 @@ type c14Reply struct {
 	Class      string   `json:"class"`
 }
 
+// c14Concurrent: Dialer methods are documented as safe for concurrent use. Several
+// goroutines dial at the same moment; every dial must send its own fresh key and
+// accept only the reply computed for it.
+func c14Concurrent(ctx *core.Ctx, out *core.Out) {
+	const G, N = 8, 12
+	var wg sync.WaitGroup
+	var mu sync.Mutex
+	seen := map[string]int{}
+	var failures []string
+	d := &ws.Dialer{}
+	start := make(chan struct{})
+	for g := 0; g < G; g++ {
+		wg.Add(1)
+		go func(g int) {
+			defer wg.Done()
+			defer func() {
+				if rec := recover(); rec != nil {
+					mu.Lock()
+					failures = append(failures, fmt.Sprintf("panic in a concurrent Dial: %v", rec))
+					mu.Unlock()
+				}
+			}()
+			<-start
+			for i := 0; i < N; i++ {
+				var key string
+				c, _, err, _ := scriptedDial(d, "ws://conc.example/x", nil, func(req []byte) []xport.Chunk {
+					key = reqHeader(req, "Sec-WebSocket-Key")
+					return []xport.Chunk{{Data: good101(req, "")}}
+				})
+				mu.Lock()
+				seen[key]++
+				if c == nil || err != nil {
+					failures = append(failures, fmt.Sprintf("concurrent dial %d/%d failed although the reply was computed for its own key %q: %v", g, i, key, err))
+				}
+				mu.Unlock()
+			}
+		}(g)
+	}
+	close(start)
+	wg.Wait()
+	out.Eval(fmt.Sprintf("concurrent-dials|%d", ctx.Idx), true)
+	out.Count("concurrent_dials", G*N)
+	for k, n := range seen {
+		out.Count("keys_checked_distinct", 1)
+		if n > 1 {
+			out.Violate("C14:key-reused-by-concurrent-dials", fmt.Sprintf("challenge key %q was sent by %d dials that ran at the same time", k, n), nil)
+			return
+		}
+		keysMu.Lock()
+		dup := keysSeen[k]
+		keysSeen[k] = true
+		keysMu.Unlock()
+		if dup {
+			out.Violate("C14:key-reused", fmt.Sprintf("challenge key %q was already used by an earlier dial of this run", k), nil)
+			return
+		}
+	}
+	if len(failures) > 0 {
+		out.Violate("C14:concurrent-dial-fails", failures[0], map[string]interface{}{"failures": len(failures)})
+	}
+}
+
 func runC14(ctx *core.Ctx, out *core.Out) {
 	r := ctx.R
+	if ctx.Idx%40 == 13 {
+		c14Concurrent(ctx, out)
+		return
+	}
 	cs := c14Case{Hdr: map[string][]string{}}
 	// ---- URL
 	scheme := "ws"
